@@ -177,14 +177,6 @@ func VerifH_usc() {
 		oldRefCnt = rs.refreshCnt
 		oldReady = gb.scStates[oldSc] == connectivity.Ready
 	}
-	// known finding F-swap (DESIGN.md section 7): the swap leaves affinityMap / fallbackMap
-	// pointing at the removed connection
-	keyOnSwapped := false
-	for x := 0; x < vK; x++ {
-		keyOnSwapped = verifOr(keyOnSwapped, verifAnd(swap, verifOr(verifAnd(pre.bound[x], pre.boundSC[x] == oldSc), verifAnd(pre.hasFb[x], pre.fb[x] == oldSc))))
-	}
-	verifKnown("F-swap", keyOnSwapped)
-	verifKnown("F-addr", swap)
 	verifReach("before")
 	gb.UpdateSubConnState(sc, balancer.SubConnState{ConnectivityState: s})
 	verifReach("after")
@@ -256,8 +248,6 @@ func VerifH_uccs() {
 	addrs := []resolver.Address{{Addr: verifChoose("addr0", "x", "y", "z")}, {Addr: "w"}}[:n]
 	pre := w.snap()
 	emptyPool := len(gb.scRefs) == 0
-	verifKnown("F-relock-1", emptyPool)
-	verifKnown("F-addr", true)
 	verifReach("before")
 	err := gb.UpdateClientConnState(balancer.ClientConnState{ResolverState: resolver.State{Addresses: addrs}})
 	verifReach("after")
